@@ -6,9 +6,8 @@
                      address unless it is deliberately replaced by forceIp / its spelling is not judged - are the ones written
      list            the call returned (abort = FALSE: no sanitizer/assert termination of the process)
      any             abort = FALSE
-   I-layer (drift only): today's exact accept/reject decision (ftp_sanitycheck, any-address, the final '|', 16-bit port
-   truncation) for inputs whose numbers have fewer than ten digits; a listing entry's name is a substring of the line;
-   no UBSan report. *)
+   I-layer (drift only): today's exact accept/reject decision (ftp_sanitycheck, any-address, the final '|', strtol
+   saturation) on every input; a listing entry's name is a substring of the line; no UBSan report. *)
 EXTENDS FtpAddr, ConfLib
 Case == Cases[i]
 POk(k) ==
@@ -20,17 +19,16 @@ POk(k) ==
        [] k.fn = "proto" -> (k.ok => LET r == ProtoRef(k.s) IN
                               r.ok /\ k.port = r.port /\ (r.ak # "free" => k.a = r.a /\ k.v4 = (r.ak = "v4")))
        [] OTHER -> TRUE
-\* ---- today's behaviour
-AllShort(ts) == \A j \in 1..Len(ts) : Len(StripZeros(ts[j].digs)) <= 9
+\* ---- today's behaviour (after fix 6378f98: every number is read with strtol into a long - which saturates instead of
+\* wrapping - and range-checked before use; h1..h4 are checked with forceIp too; an EPRT port needs a digit and 1..65535)
 IsAny(b) == b = Zeros(16) \/ b = Mapped4(<<0, 0, 0, 0>>)
 ImplIpPort(k) ==
   LET L == LexList(k.s, 1, 6) IN
   IF ~L.ok THEN ~k.ok
-  ELSE IF ~AllShort(L.t) THEN TRUE
-  ELSE LET v(j) == SVal(L.t[j])
+  ELSE LET v(j) == SVal(L.t[j])          \* Big stands for every magnitude of ten or more digits: out of range either way
            port == v(5) * 256 + v(6)
-           accept == /\ v(5) >= 0 /\ v(5) <= 255 /\ v(6) >= 0 /\ v(6) <= 255
-                     /\ (k.force \/ ((\A j \in 1..4 : v(j) >= 0 /\ v(j) <= 255) /\ \E j \in 1..4 : v(j) # 0))
+           accept == /\ \A j \in 1..6 : v(j) >= 0 /\ v(j) <= 255
+                     /\ (k.force \/ \E j \in 1..4 : v(j) # 0)
                      /\ port > 0 /\ (k.sanity => port >= 1024)
        IN k.ok = accept
 ImplProto(k) ==
@@ -39,18 +37,16 @@ ImplProto(k) ==
       t1 == LexInt(s, 2)
       p1e == IF t1.ok THEN t1.next ELSE 2 IN
   IF p1e > Len(s) \/ s[p1e] # d \/ ~t1.ok THEN ~k.ok
-  ELSE IF Len(StripZeros(t1.digs)) > 9 THEN TRUE
   ELSE IF SVal(t1) \notin {1, 2} THEN ~k.ok
   ELSE LET e == IndexFrom(s, d, p1e + 1) IN
        IF e = 0 THEN ~k.ok
        ELSE LET a == AddrOf(SubSeq(s, p1e + 1, e - 1))
-                tp == LexInt(s, e + 1)
-                pe == IF tp.ok THEN tp.next ELSE e + 1
-                pv == IF tp.ok THEN SVal(tp) ELSE 0 IN
-            IF a.k = "free" \/ (tp.ok /\ Len(StripZeros(tp.digs)) > 9) THEN TRUE
+                tp == LexInt(s, e + 1) IN
+            IF a.k = "free" THEN TRUE
             ELSE LET accept == /\ a.k = (IF SVal(t1) = 1 THEN "v4" ELSE "v6") /\ ~IsAny(a.b)
-                               /\ pv >= 0 /\ pe <= Len(s) /\ s[pe] = 124 /\ (k.sanity => pv >= 1024)
-                 IN k.ok = accept /\ (accept => k.port = pv % 65536)
+                               /\ tp.ok /\ SVal(tp) >= 1 /\ SVal(tp) <= 65535
+                               /\ tp.next <= Len(s) /\ s[tp.next] = 124 /\ (k.sanity => SVal(tp) >= 1024)
+                 IN k.ok = accept /\ (accept => k.port = SVal(tp))
 \* n occurs in s at some position >= k
 SubAt(s, n, k) == \E j \in k..(Len(s) - Len(n) + 1) : SubSeq(s, j, j + Len(n) - 1) = n
 ImplList(k) == k.entry => SubAt(k.s, k.name, 1)
